@@ -3,9 +3,13 @@
 
    A. with fresh values the phase bodies are the atomic functions;
    B. a schedule in which no sync round changes the chain state while a tick or a submission is
-      in flight is linearisable: the node it ends in is the node a sequential history of
-      atomic operations ends in, and that node is reachable;
-   C. without that condition a schedule ends in a chain no sequential history yields (D17). *)
+      in flight ([sched_ok]) is linearisable: the node it ends in is the node a sequential history
+      of atomic operations ends in, and that node is reachable; this is proved under the weaker
+      [sched_ok']: the round may change the chain state while a tick is in flight if the tip it
+      installs is not dated before the tick (V4 is then refused), and while a submission is in
+      flight if the submission has made its three reads (it is put before the round in the
+      history); both conditions are closed under prefixes: reachable at every moment;
+   C. outside [sched_ok'] a schedule ends in a chain no sequential history yields (D17). *)
 From RV Require Import model.Base model.Ledger model.Registry model.Chain model.Sync model.Pool
      model.Reach model.Interleave.
 From RV Require Import proofs.Pool_lemmas proofs.Sync_lemmas proofs.Reach_lemmas.
@@ -329,12 +333,6 @@ Section InterleaveLemmas.
       length snap <= length (chain c) /\
       (length snap = length (chain c) -> snap = chain c /\ u = ur c /\ a = ar c)
     end.
-  Definition inv (s : istate) : Prop :=
-    v_fresh (n_c (i_n s)) (i_v s) /\ a_fresh (n_c (i_n s)) (i_a s) /\ u_fresh (n_c (i_n s)) (i_u s).
-
-  Lemma inv_init (n : node) : inv (istate_of n).
-  Proof. repeat split. Qed.
-
   Lemma u_fresh_grown (c c' : cstate) (r : ureg_t) :
     length (chain c') = Datatypes.S (length (chain c)) -> u_fresh c r -> u_fresh c' r.
   Proof.
@@ -353,99 +351,210 @@ Section InterleaveLemmas.
     - left. apply validate_refused_id in Ev. exact Ev.
   Qed.
 
-  (* ---- one step ---- *)
-  Lemma istep_inv (s : istate) (o : iop) :
-    inv s -> quiet_step s o -> iop_ok s o ->
-    inv (fst (istep s o)) /\
-    exists ops, ops_ok (i_n s) ops /\ fold_left step ops (i_n s) = i_n (fst (istep s o)).
+  (* ---------------------------------------------------------------- *)
+  (* the refined condition: the stale views that do no harm            *)
+  (* ---------------------------------------------------------------- *)
+
+  (* 1. a tick not after the tip is refused whatever V1..V3 have read: by the registry copy not
+     applying, or by AddBlock under the chain lock; the node is left as it was *)
+  Lemma validate_view_tip_not_before (n : node) (l : Z) (x : list tx) (u : ureg) (ts : Z)
+        (perm : list nat) :
+    chain (n_c n) <> [] -> (ts <= last_block_ts (chain (n_c n)))%Z ->
+    exists e, validate_view l x u n ts perm = (n, Refused e) /\
+              (e = ETime \/ update_utxos u x l = Err e).
   Proof.
-    destruct s as [n v a u]. unfold inv. cbn [i_n i_v i_a i_u].
-    intros (Hv & Ha & Hu) Hq Hok.
-    assert (Hsame : forall v' a' u', v_fresh (n_c n) v' -> a_fresh (n_c n) a' -> u_fresh (n_c n) u' ->
-              inv (mkI n v' a' u') /\
-              exists ops, ops_ok n ops /\ fold_left step ops n = i_n (mkI n v' a' u')).
-    { intros v' a' u' Hv' Ha' Hu'. split; [repeat split; assumption|].
-      exists []. split; [exact I | reflexivity]. }
-    unfold inv in Hsame. cbn [i_n i_v i_a i_u] in Hsame.
-    destruct o as [ts| | |perm|t| | | | | |now nbs pref].
+    intros Hne Hts. unfold Interleave.validate_view. cbv zeta.
+    destruct (update_utxos u x l) as [u0|e0]; [|exists e0; split; [reflexivity | right; reflexivity]].
+    destruct (produce_loop value_fn addr_of sig_ok S l (l + s_interval S) ts
+                (permute perm (elems (n_pool n))) u0 [] []
+                (if (l =? 0)%Z then s_genesis S else 0%N))
+      as [[[uu kept] dropped] reward].
+    rewrite (add_block_time _ _ _ _ _ Hne Hts).
+    exists ETime. split; [reflexivity | left; reflexivity].
+  Qed.
+
+  Definition vreg_tick (v : vreg) : option Z :=
+    match v with
+    | VR0 => None
+    | VR1 ts _ => Some ts
+    | VR2 ts _ _ => Some ts
+    | VR3 ts _ _ _ => Some ts
+    end.
+  Definition is_AR3 (a : areg_t) : Prop := exists t l u x, a = AR3 t l u x.
+
+  (* when a sync round changes the chain state: a tick in flight is not after the tip installed
+     (it will be refused), a submission in flight has made its three reads (it is linearised
+     before the round) *)
+  Definition quiet_step' (s : istate) (o : iop) : Prop :=
+    match o with
+    | IU3 _ _ _ =>
+      n_c (i_n (fst (istep s o))) <> n_c (i_n s) ->
+      (i_v s = VR0 \/
+       exists ts, vreg_tick (i_v s) = Some ts /\
+                  chain (n_c (i_n (fst (istep s o)))) <> [] /\
+                  (ts <= last_block_ts (chain (n_c (i_n (fst (istep s o))))))%Z) /\
+      (i_a s = AR0 \/ is_AR3 (i_a s))
+    | _ => True
+    end.
+
+  Fixpoint sched_ok' (s : istate) (l : list iop) : Prop :=
+    match l with
+    | [] => True
+    | o :: r => quiet_step' s o /\ iop_ok s o /\ sched_ok' (fst (istep s o)) r
+    end.
+
+  Lemma quiet_step_refines (s : istate) (o : iop) : quiet_step s o -> quiet_step' s o.
+  Proof.
+    destruct o; try exact (fun x => x). cbn [quiet_step quiet_step'].
+    intros Hq Hne. destruct (Hq Hne) as [Ev Ea]. split; left; assumption.
+  Qed.
+
+  Lemma sched_ok_refines (l : list iop) : forall s, sched_ok s l -> sched_ok' s l.
+  Proof.
+    induction l as [|o r IH]; intros s; [exact (fun x => x)|].
+    intros (Hq & Hi & Hr). split; [exact (quiet_step_refines _ _ Hq)|].
+    split; [exact Hi | exact (IH _ Hr)].
+  Qed.
+
+  Lemma irun_app (l1 l2 : list iop) : forall s, irun s (l1 ++ l2) = irun (irun s l1) l2.
+  Proof. induction l1 as [|o r IH]; intros s; [reflexivity | apply IH]. Qed.
+
+  (* the conditions are closed under prefixes (and hold of the rest from where the prefix ends) *)
+  Lemma sched_ok'_app (l1 l2 : list iop) : forall s,
+    sched_ok' s (l1 ++ l2) -> sched_ok' s l1 /\ sched_ok' (irun s l1) l2.
+  Proof.
+    induction l1 as [|o r IH]; intros s Hs; [split; [exact I | exact Hs]|].
+    destruct Hs as (Hq & Hi & Hr). destruct (IH _ Hr) as [H1 H2].
+    split; [split; [exact Hq | split; [exact Hi | exact H1]] | exact H2].
+  Qed.
+
+  (* ---- the V register: fresh, or holding a tick not after the live tip ---- *)
+  Definition v_doomed (c : cstate) (v : vreg) : Prop :=
+    exists ts, vreg_tick v = Some ts /\ chain c <> [] /\ (ts <= last_block_ts (chain c))%Z.
+  Definition v_ok (c : cstate) (v : vreg) : Prop := v_fresh c v \/ v_doomed c v.
+
+  (* ---- histories of sync rounds ---- *)
+  Definition is_update (o : op) : Prop :=
+    match o with OpUpdate _ _ _ => True | _ => False end.
+
+  Lemma ops_ok_app_inv (a b : list op) : forall n,
+    ops_ok n (a ++ b) -> ops_ok n a /\ ops_ok (fold_left step a n) b.
+  Proof.
+    induction a as [|o r IH]; intros n Hab; [split; [exact I | exact Hab]|].
+    destruct Hab as [Ho Hr]. destruct (IH _ Hr) as [H1 H2].
+    split; [split; [exact Ho | exact H1] | exact H2].
+  Qed.
+
+  Lemma ops_ok_updates (ups : list op) : Forall is_update ups ->
+    forall n n', ops_ok n ups -> ops_ok n' ups.
+  Proof.
+    induction 1 as [|o r Ho Hr IH]; intros n n' Hok; [exact I|].
+    destruct Hok as [H1 H2]. split; [|exact (IH _ _ H2)].
+    destruct o; try contradiction. exact H1.
+  Qed.
+
+  (* a sync round does not look at the pool and leaves it alone *)
+  Lemma fold_updates_repool (ups : list op) : Forall is_update ups ->
+    forall c p p',
+      fold_left step ups (mkNode c p) = mkNode (n_c (fold_left step ups (mkNode c p'))) p.
+  Proof.
+    induction 1 as [|o r Ho Hr IH]; intros c p p'; [reflexivity|].
+    destruct o as [| |now nbs pref|]; try contradiction.
+    cbn [fold_left Reach.step n_c n_pool]. apply IH.
+  Qed.
+
+  Lemma fold_updates_pool (ups : list op) : Forall is_update ups ->
+    forall n, n_pool (fold_left step ups n) = n_pool n.
+  Proof.
+    intros Hu n. rewrite <- (node_eta n) at 1.
+    rewrite (fold_updates_repool ups Hu (n_c n) (n_pool n) (n_pool n)). reflexivity.
+  Qed.
+
+  (* 2. A4 looks at the live node only through its pool *)
+  Lemma pool_add_view_repool (l : Z) (u : ureg) (x : list tx) (n n1 : node) (t : tx) :
+    n_pool n = n_pool n1 ->
+    pool_add_view l u x n t
+    = match pool_add_view l u x n1 t with
+      | Ok _ => Ok (mkNode (n_c n) (sl_app (n_pool n) t))
+      | Err e => Err e
+      end.
+  Proof.
+    intros Hp. unfold Interleave.pool_add_view, pool_ids. rewrite Hp.
+    destruct (l =? 0)%Z; [reflexivity|].
+    destruct (l + s_interval S <? t_ts t)%Z; [reflexivity|].
+    destruct (t_ts t <? l)%Z; [reflexivity|].
+    destruct (mem_str (t_id t) (map t_id (elems (n_pool n1)))); [reflexivity|].
+    destruct (negb (verify_sigs sig_ok t)); [reflexivity|].
+    destruct (update_utxos u x l) as [u1|e1]; [|reflexivity].
+    destruct (update_utxos u1 (elems (n_pool n1)) (l + s_interval S)) as [u2|e2]; [|reflexivity].
+    destruct (calc_fee value_fn addr_of (s_fee S) u2 t (l + s_interval S)) as [f|e3]; [|reflexivity].
+    destruct (update_utxos u2 [t] (l + s_interval S)) as [u3|e4]; reflexivity.
+  Qed.
+
+  (* ---- one step of a tick or of a sync round ---- *)
+  Definition not_IA (o : iop) : Prop :=
+    match o with IA1 _ | IA2 | IA3 | IA4 => False | _ => True end.
+
+  Definition step_post (s s' : istate) : Prop :=
+    v_ok (n_c (i_n s')) (i_v s') /\ u_fresh (n_c (i_n s')) (i_u s') /\ i_a s' = i_a s /\
+    exists ops1, ops_ok (i_n s) ops1 /\ fold_left step ops1 (i_n s) = i_n s' /\
+                 (i_a s = AR0 \/ Forall is_update ops1) /\
+                 (n_c (i_n s') = n_c (i_n s) \/ i_a s = AR0 \/ is_AR3 (i_a s)).
+
+  Lemma v_doomed_tick (c : cstate) (v v' : vreg) :
+    vreg_tick v' = vreg_tick v -> v_doomed c v -> v_doomed c v'.
+  Proof. intros E (ts & Et & Hd). exists ts. rewrite E. split; [exact Et | exact Hd]. Qed.
+
+  Lemma istep_vu (s : istate) (o : iop) :
+    not_IA o -> v_ok (n_c (i_n s)) (i_v s) -> u_fresh (n_c (i_n s)) (i_u s) ->
+    quiet_step' s o -> iop_ok s o -> step_post s (fst (istep s o)).
+  Proof.
+    destruct s as [n v a u]. cbn [i_n i_v i_a i_u].
+    intros Hno Hv Hu Hq Hok.
+    assert (Hsame : forall v' u', v_ok (n_c n) v' -> u_fresh (n_c n) u' ->
+                                  step_post (mkI n v a u) (mkI n v' a u')).
+    { intros v' u' Hv' Hu'. unfold step_post. cbn [i_n i_v i_a i_u].
+      split; [exact Hv'|]. split; [exact Hu'|]. split; [reflexivity|].
+      exists []. split; [exact I|]. split; [reflexivity|].
+      split; [right; constructor | left; reflexivity]. }
+    destruct o as [ts| | |perm|t| | | | | |now nbs pref]; try contradiction.
     - (* IV1 *)
       destruct v; cbn [Interleave.istep i_n i_v i_a i_u fst];
         try (apply Hsame; assumption).
       destruct (validate_early S (last_block_ts (chain (n_c n))) ts) eqn:Ee; cbn [fst];
-        apply Hsame; try assumption. split; [reflexivity | exact Ee].
+        apply Hsame; try assumption. left. split; [reflexivity | exact Ee].
     - (* IV2 *)
-      destruct v; cbn [Interleave.istep i_n i_v i_a i_u fst];
+      destruct v as [|ts l|ts l x|ts l x uu]; cbn [Interleave.istep i_n i_v i_a i_u fst];
         try (apply Hsame; assumption).
-      apply Hsame; try assumption. destruct Hv as [Hl He].
-      split; [exact Hl|]. split; [reflexivity | exact He].
+      apply Hsame; [|exact Hu]. destruct Hv as [[Hl He]|Hd].
+      + left. split; [exact Hl|]. split; [reflexivity | exact He].
+      + right. exact (v_doomed_tick _ _ _ eq_refl Hd).
     - (* IV3 *)
-      destruct v; cbn [Interleave.istep i_n i_v i_a i_u fst];
+      destruct v as [|ts l|ts l x|ts l x uu]; cbn [Interleave.istep i_n i_v i_a i_u fst];
         try (apply Hsame; assumption).
-      apply Hsame; try assumption. destruct Hv as (Hl & Hx & He).
-      split; [exact Hl|]. split; [exact Hx|]. split; [reflexivity | exact He].
+      apply Hsame; [|exact Hu]. destruct Hv as [(Hl & Hx & He)|Hd].
+      + left. split; [exact Hl|]. split; [exact Hx|]. split; [reflexivity | exact He].
+      + right. exact (v_doomed_tick _ _ _ eq_refl Hd).
     - (* IV4 *)
       destruct v as [|ts l|ts l x|ts l x uu]; cbn [Interleave.istep i_n i_v i_a i_u fst];
         try (apply Hsame; assumption).
       destruct a as [|t l0|t l0 u0|t l0 u0 x0]; cbn [Interleave.istep i_n i_v i_a i_u fst];
         try (apply Hsame; assumption).
       cbn [iop_ok i_v i_n] in Hok.
-      destruct Hv as (Hl & Hx & Hu0 & Ee). subst l x uu.
-      rewrite (validate_view_fresh _ _ perm Ee).
-      pose proof (validate_grows n ts perm) as Hg.
-      destruct (validate n ts perm) as [n' out] eqn:Ev. cbn [fst] in Hg |- *.
-      split.
-      + unfold inv. cbn [i_n i_v i_a i_u]. split; [exact I|]. split; [exact I|].
-        destruct Hg as [E|E]; [subst n'; exact Hu | exact (u_fresh_grown _ _ _ E Hu)].
-      + exists [OpValidate ts perm]. split; [split; [exact Hok | exact I]|].
-        cbn [fold_left Reach.step i_n]. rewrite Ev. reflexivity.
-    - (* IA1 *)
-      destruct a; cbn [Interleave.istep i_n i_v i_a i_u fst];
-        try (destruct v; apply Hsame; assumption).
-      assert (Hgoal : inv (fst (match pool_add_early (last_block_ts (chain (n_c n))) n t with
-                                | Some e => (mkI n v AR0 u, OAdd (Some e))
-                                | None => (mkI n v (AR1 t (last_block_ts (chain (n_c n)))) u, ONone)
-                                end)) /\
-                      exists ops, ops_ok n ops /\
-                        fold_left step ops n =
-                        i_n (fst (match pool_add_early (last_block_ts (chain (n_c n))) n t with
-                                  | Some e => (mkI n v AR0 u, OAdd (Some e))
-                                  | None => (mkI n v (AR1 t (last_block_ts (chain (n_c n)))) u, ONone)
-                                  end))).
-      { destruct (pool_add_early (last_block_ts (chain (n_c n))) n t); cbn [fst];
-          apply Hsame; try assumption. reflexivity. }
-      destruct v; exact Hgoal.
-    - (* IA2 *)
-      destruct a; cbn [Interleave.istep i_n i_v i_a i_u fst];
-        try (destruct v; apply Hsame; assumption).
-      destruct v; apply Hsame; try assumption; (split; [exact Ha | reflexivity]).
-    - (* IA3 *)
-      destruct a; cbn [Interleave.istep i_n i_v i_a i_u fst];
-        try (destruct v; apply Hsame; assumption).
-      destruct Ha as [Hl Hu0].
-      destruct v; apply Hsame; try assumption; (split; [exact Hl | split; [exact Hu0 | reflexivity]]).
-    - (* IA4 *)
-      destruct a as [|t l|t l u0|t l u0 x]; cbn [Interleave.istep i_n i_v i_a i_u fst];
-        try (destruct v; apply Hsame; assumption).
-      destruct Ha as (Hl & Hu0 & Hx). subst l u0 x.
-      assert (Hgoal : inv (fst (match pool_add n t with
-                                | Ok n' => (mkI n' v AR0 u, OAdd None)
-                                | Err e => (mkI n v AR0 u, OAdd (Some e))
-                                end)) /\
-                      exists ops, ops_ok n ops /\
-                        fold_left step ops n =
-                        i_n (fst (match pool_add n t with
-                                  | Ok n' => (mkI n' v AR0 u, OAdd None)
-                                  | Err e => (mkI n v AR0 u, OAdd (Some e))
-                                  end))).
-      { destruct (pool_add n t) as [n'|e] eqn:Ep; cbn [fst].
-        - pose proof (pool_add_node _ _ _ _ _ _ _ Ep) as En. split.
-          + unfold inv. cbn [i_n i_v i_a i_u]. subst n'. cbn [n_c].
-            split; [exact Hv|]. split; [exact I | exact Hu].
-          + exists [OpAdd t]. split; [split; exact I|].
-            cbn [fold_left Reach.step i_n]. rewrite Ep. reflexivity.
-        - apply Hsame; [exact Hv | exact I | exact Hu]. }
-      rewrite <- (pool_add_view_fresh n t) in Hgoal.
-      destruct v; exact Hgoal.
+      destruct Hv as [(Hl & Hx & Hu0 & Ee)|(ts0 & Et & Hne & Hle)].
+      + subst l x uu. rewrite (validate_view_fresh _ _ perm Ee).
+        pose proof (validate_grows n ts perm) as Hg.
+        destruct (validate n ts perm) as [n' out] eqn:Ev. cbn [fst] in Hg |- *.
+        unfold step_post. cbn [i_n i_v i_a i_u].
+        split; [left; exact I|].
+        split; [destruct Hg as [E|E]; [subst n'; exact Hu | exact (u_fresh_grown _ _ _ E Hu)]|].
+        split; [reflexivity|].
+        exists [OpValidate ts perm]. split; [split; [exact Hok | exact I]|].
+        split; [cbn [fold_left Reach.step]; rewrite Ev; reflexivity|].
+        split; [left; reflexivity | right; left; reflexivity].
+      + cbn [vreg_tick] in Et. inversion Et; subst ts0.
+        destruct (validate_view_tip_not_before n l x uu ts perm Hne Hle) as (e & Ee & _).
+        rewrite Ee. cbn [fst]. apply Hsame; [left; exact I | exact Hu].
     - (* IU1 *)
       destruct u; cbn [Interleave.istep i_n i_v i_a i_u fst];
         try (destruct v; destruct a; apply Hsame; assumption).
@@ -458,80 +567,274 @@ Section InterleaveLemmas.
       destruct v; destruct a; apply Hsame; try assumption;
         (split; [exact Hle | intros E; split; [exact (Heq E) | split; reflexivity]]).
     - (* IU3 *)
-      cbn [iop_ok i_n] in Hok. cbn [quiet_step i_n i_v i_a] in Hq.
+      cbn [iop_ok i_n] in Hok. cbn [quiet_step' i_n i_v i_a] in Hq.
       assert (Hgoal : forall snap u0 a0, u = UR2 snap u0 a0 ->
-                (n_c (i_n (fst (match update_decide (mkC snap u0 a0) now nbs pref with
-                                | None => (mkI n v a UR0, OUpd false)
-                                | Some d =>
-                                  let '(c', r) := update_commit (length snap) (n_c n) d in
-                                  (mkI (mkNode c' (n_pool n)) v a UR0, OUpd r)
-                                end))) <> n_c n -> v = VR0 /\ a = AR0) ->
-                inv (fst (match update_decide (mkC snap u0 a0) now nbs pref with
-                          | None => (mkI n v a UR0, OUpd false)
-                          | Some d =>
-                            let '(c', r) := update_commit (length snap) (n_c n) d in
-                            (mkI (mkNode c' (n_pool n)) v a UR0, OUpd r)
-                          end)) /\
-                exists ops, ops_ok n ops /\
-                  fold_left step ops n =
-                  i_n (fst (match update_decide (mkC snap u0 a0) now nbs pref with
-                            | None => (mkI n v a UR0, OUpd false)
-                            | Some d =>
-                              let '(c', r) := update_commit (length snap) (n_c n) d in
-                              (mkI (mkNode c' (n_pool n)) v a UR0, OUpd r)
-                            end))).
-      { intros snap u0 a0 Eu Hq'. subst u. destruct Hu as [Hle Heq].
-        destruct (update_decide (mkC snap u0 a0) now nbs pref) as [d|] eqn:Ed; cbn [fst] in Hq' |- *;
-          [|apply Hsame; [exact Hv | exact Ha | exact I]].
+                forall s', s' = fst (match update_decide (mkC snap u0 a0) now nbs pref with
+                                     | None => (mkI n v a UR0, OUpd false)
+                                     | Some d =>
+                                       let '(c', r) := update_commit (length snap) (n_c n) d in
+                                       (mkI (mkNode c' (n_pool n)) v a UR0, OUpd r)
+                                     end) ->
+                (n_c (i_n s') <> n_c n ->
+                 (v = VR0 \/
+                  exists ts, vreg_tick v = Some ts /\ chain (n_c (i_n s')) <> [] /\
+                             (ts <= last_block_ts (chain (n_c (i_n s'))))%Z) /\
+                 (a = AR0 \/ is_AR3 a)) ->
+                step_post (mkI n v a u) s').
+      { intros snap u0 a0 Eu s' Es' Hq'. subst u. destruct Hu as [Hle Heq].
+        destruct (update_decide (mkC snap u0 a0) now nbs pref) as [d|] eqn:Ed; cbn [fst] in Es';
+          [|subst s'; apply Hsame; [exact Hv | exact I]].
         destruct (Nat.eq_dec (length snap) (length (chain (n_c n)))) as [El|El].
         - destruct (Heq El) as (Es & Eu0 & Ea0). subst snap u0 a0.
           rewrite cstate_eta in Ed.
           pose proof (update_fresh (n_c n) now nbs pref) as Hf. rewrite Ed in Hf.
           destruct (update_commit (length (chain (n_c n))) (n_c n) d) as [c' r] eqn:Ec.
-          cbn [fst i_n n_c] in Hq' |- *. split.
-          + unfold inv. cbn [i_n i_v i_a i_u n_c].
-            destruct (cstate_eq_dec c' (n_c n)) as [E|E].
-            * rewrite E. split; [exact Hv|]. split; [exact Ha | exact I].
-            * destruct (Hq' E) as [-> ->]. repeat split.
-          + exists [OpUpdate now nbs pref]. split; [split; [exact Hok | exact I]|].
-            cbn [fold_left Reach.step]. rewrite Hf. reflexivity.
-        - rewrite (update_commit_stale _ _ d El). cbn [fst i_n]. rewrite node_eta.
-          apply Hsame; [exact Hv | exact Ha | exact I]. }
+          cbn [fst] in Es'. subst s'. cbn [i_n n_c] in Hq'.
+          unfold step_post. cbn [i_n i_v i_a i_u n_c].
+          assert (Hops : exists ops1, ops_ok n ops1 /\
+                           fold_left step ops1 n = mkNode c' (n_pool n) /\
+                           (a = AR0 \/ Forall is_update ops1)).
+          { exists [OpUpdate now nbs pref]. split; [split; [exact Hok | exact I]|].
+            split; [cbn [fold_left Reach.step]; rewrite Hf; reflexivity|].
+            right. constructor; [exact I | constructor]. }
+          destruct Hops as (ops1 & Ho1 & Hf1 & Hd1).
+          destruct (cstate_eq_dec c' (n_c n)) as [E|E].
+          + subst c'. split; [exact Hv|]. split; [exact I|]. split; [reflexivity|].
+            exists ops1.
+            split; [exact Ho1|]. split; [exact Hf1|]. split; [exact Hd1 | left; reflexivity].
+          + destruct (Hq' E) as [Hvq Haq].
+            split.
+            { destruct Hvq as [->|(ts & Et & Hne & Hts)]; [left; exact I|].
+              right. exists ts. split; [exact Et|]. split; [exact Hne | exact Hts]. }
+            split; [exact I|]. split; [reflexivity|].
+            exists ops1. split; [exact Ho1|]. split; [exact Hf1|].
+            split; [exact Hd1 | right; exact Haq].
+        - rewrite (update_commit_stale _ _ d El) in Es'. cbn [fst] in Es'.
+          rewrite node_eta in Es'. subst s'. apply Hsame; [exact Hv | exact I]. }
       destruct u as [|snap|snap u0 a0];
         try (destruct v; destruct a; cbn [Interleave.istep i_n i_v i_a i_u fst]; apply Hsame; assumption).
       specialize (Hgoal snap u0 a0 eq_refl).
       destruct v; destruct a; cbn [Interleave.istep i_n i_v i_a i_u fst] in Hq |- *;
-        exact (Hgoal Hq).
+        exact (Hgoal _ eq_refl Hq).
   Qed.
 
-  (* ---- the run ---- *)
-  Lemma irun_sequential (l : list iop) : forall s,
-    inv s -> sched_ok s l ->
-    exists ops, ops_ok (i_n s) ops /\ fold_left step ops (i_n s) = i_n (irun s l).
+  (* ---- the steps of a submission ---- *)
+  Lemma istep_a123 (s : istate) (o : iop) :
+    match o with IA1 _ | IA2 | IA3 => True | _ => False end ->
+    let s' := fst (istep s o) in
+    i_n s' = i_n s /\ i_v s' = i_v s /\ i_u s' = i_u s /\
+    (a_fresh (n_c (i_n s)) (i_a s) -> a_fresh (n_c (i_n s)) (i_a s')) /\
+    (is_AR3 (i_a s) -> i_a s' = i_a s).
   Proof.
-    induction l as [|o r IH]; intros s Hi Hs.
-    - exists []. split; [exact I | reflexivity].
-    - destruct Hs as (Hq & Hok & Hr).
-      destruct (istep_inv s o Hi Hq Hok) as (Hi' & ops1 & Ho1 & Hf1).
-      destruct (IH _ Hi' Hr) as (ops2 & Ho2 & Hf2).
-      exists (ops1 ++ ops2). split.
-      + apply ops_ok_app; [exact Ho1 | rewrite Hf1; exact Ho2].
-      + rewrite fold_left_app, Hf1. exact Hf2.
+    destruct s as [n v a u]. cbv zeta. cbn [i_n i_v i_a i_u].
+    destruct o as [| | | |t| | | | | |]; try contradiction; intros _.
+    - (* IA1 *)
+      destruct a as [|t0 l|t0 l u0|t0 l u0 x].
+      + assert (Hg : forall r, r = fst (match pool_add_early (last_block_ts (chain (n_c n))) n t with
+                                         | Some e => (mkI n v AR0 u, OAdd (Some e))
+                                         | None => (mkI n v (AR1 t (last_block_ts (chain (n_c n)))) u, ONone)
+                                         end) ->
+                     i_n r = n /\ i_v r = v /\ i_u r = u /\
+                     (a_fresh (n_c n) AR0 -> a_fresh (n_c n) (i_a r)) /\ (is_AR3 AR0 -> i_a r = AR0)).
+        { intros r ->. destruct (pool_add_early (last_block_ts (chain (n_c n))) n t); cbn [fst i_n i_v i_a i_u];
+            (split; [reflexivity|]; split; [reflexivity|]; split; [reflexivity|]; split;
+             [intros _; first [exact I | reflexivity] | intros (t' & l' & u' & x' & E); discriminate E]). }
+        destruct v; exact (Hg _ eq_refl).
+      + destruct v; cbn [Interleave.istep i_n i_v i_a i_u fst];
+          (split; [reflexivity|]; split; [reflexivity|]; split; [reflexivity|]; split;
+           [exact (fun x => x) | intros _; reflexivity]).
+      + destruct v; cbn [Interleave.istep i_n i_v i_a i_u fst];
+          (split; [reflexivity|]; split; [reflexivity|]; split; [reflexivity|]; split;
+           [exact (fun x => x) | intros _; reflexivity]).
+      + destruct v; cbn [Interleave.istep i_n i_v i_a i_u fst];
+          (split; [reflexivity|]; split; [reflexivity|]; split; [reflexivity|]; split;
+           [exact (fun x => x) | intros _; reflexivity]).
+    - (* IA2 *)
+      destruct a as [|t0 l|t0 l u0|t0 l u0 x];
+        destruct v; cbn [Interleave.istep i_n i_v i_a i_u fst];
+        (split; [reflexivity|]; split; [reflexivity|]; split; [reflexivity|]; split;
+         [first [exact (fun x => x) | intros Hl; split; [exact Hl | reflexivity]]
+         |first [intros _; reflexivity | intros (t' & l' & u' & x' & E); discriminate E]]).
+    - (* IA3 *)
+      destruct a as [|t0 l|t0 l u0|t0 l u0 x];
+        destruct v; cbn [Interleave.istep i_n i_v i_a i_u fst];
+        (split; [reflexivity|]; split; [reflexivity|]; split; [reflexivity|]; split;
+         [first [exact (fun x => x)
+                |intros [Hl Hu0]; split; [exact Hl | split; [exact Hu0 | reflexivity]]]
+         |first [intros _; reflexivity | intros (t' & l' & u' & x' & E); discriminate E]]).
   Qed.
+
+  Lemma istep_a4 (s : istate) :
+    (~ is_AR3 (i_a s) /\ fst (istep s IA4) = s) \/
+    exists t l u x, i_a s = AR3 t l u x /\
+      fst (istep s IA4)
+      = mkI (match pool_add_view l u x (i_n s) t with Ok n' => n' | Err _ => i_n s end)
+            (i_v s) AR0 (i_u s).
+  Proof.
+    destruct s as [n v a u]. cbn [i_n i_v i_a i_u].
+    destruct a as [|t0 l|t0 l u0|t0 l u0 x].
+    - left. split; [intros (t' & l' & u' & x' & E); discriminate E | destruct v; reflexivity].
+    - left. split; [intros (t' & l' & u' & x' & E); discriminate E | destruct v; reflexivity].
+    - left. split; [intros (t' & l' & u' & x' & E); discriminate E | destruct v; reflexivity].
+    - right. exists t0, l, u0, x. split; [reflexivity|].
+      destruct v; cbn [Interleave.istep i_n i_v i_a i_u];
+        destruct (pool_add_view l u0 x n t0); reflexivity.
+  Qed.
+
+  (* ---- the invariant of a run: a sequential history [opsA ++ ups] of the node, where the
+     sync rounds [ups] are those that have overtaken the submission in flight, whose three reads
+     were made at the end of [opsA] ---- *)
+  Definition ginv (n0 : node) (s : istate) : Prop :=
+    exists opsA ups,
+      ops_ok n0 (opsA ++ ups) /\ Forall is_update ups /\
+      fold_left step ups (fold_left step opsA n0) = i_n s /\
+      a_fresh (n_c (fold_left step opsA n0)) (i_a s) /\
+      (ups = [] \/ is_AR3 (i_a s)) /\
+      v_ok (n_c (i_n s)) (i_v s) /\ u_fresh (n_c (i_n s)) (i_u s).
+
+  Lemma ginv_init (n0 : node) : ginv n0 (istate_of n0).
+  Proof.
+    exists [], []. cbn [app fold_left istate_of i_n i_v i_a i_u].
+    split; [exact I|]. split; [constructor|]. split; [reflexivity|]. split; [exact I|].
+    split; [left; reflexivity|]. split; [left; exact I | exact I].
+  Qed.
+
+  Lemma ginv_history (n0 : node) (s : istate) :
+    ginv n0 s -> exists ops, ops_ok n0 ops /\ fold_left step ops n0 = i_n s.
+  Proof.
+    intros (opsA & ups & Hok & _ & Hf & _). exists (opsA ++ ups).
+    split; [exact Hok | rewrite fold_left_app; exact Hf].
+  Qed.
+
+  Lemma ginv_step (n0 : node) (s : istate) (o : iop) :
+    ginv n0 s -> quiet_step' s o -> iop_ok s o -> ginv n0 (fst (istep s o)).
+  Proof.
+    intros (opsA & ups & Hok & Hup & Hf & Ha & Hfr & Hv & Hu) Hq Hi.
+    set (g := fold_left step opsA n0) in *.
+    assert (Hcases : not_IA o \/ match o with IA1 _ | IA2 | IA3 => True | _ => False end \/ o = IA4).
+    { destruct o; cbn; auto. }
+    destruct Hcases as [Hno|[H123|H4]].
+    - (* a step of a tick or of a sync round *)
+      destruct (istep_vu s o Hno Hv Hu Hq Hi) as (Hv' & Hu' & Ea & ops1 & Ho1 & Hf1 & Hd1 & Hd2).
+      assert (Hcase : (ups = [] /\ (n_c (i_n (fst (istep s o))) = n_c (i_n s) \/ i_a s = AR0)) \/
+                      (is_AR3 (i_a s) /\ Forall is_update ops1)).
+      { destruct Hfr as [E|H3].
+        - destruct Hd2 as [E2|[E2|H3]]; [left; split; [exact E | left; exact E2]
+                                         |left; split; [exact E | right; exact E2]|].
+          destruct Hd1 as [E1|F1]; [left; split; [exact E | right; exact E1] | right; split; assumption].
+        - destruct Hd1 as [E1|F1]; [|right; split; assumption].
+          destruct H3 as (t' & l' & u' & x' & E3). rewrite E3 in E1. discriminate E1. }
+      destruct Hcase as [[E Hlive]|[H3 F1]].
+      + (* the history goes on at its end *)
+        subst ups. rewrite app_nil_r in Hok. cbn [fold_left] in Hf.
+        exists (opsA ++ ops1), []. rewrite app_nil_r, fold_left_app. fold g. rewrite Hf, Hf1.
+        split; [apply ops_ok_app; [exact Hok | fold g; rewrite Hf; exact Ho1]|].
+        split; [constructor|]. split; [reflexivity|].
+        split.
+        { rewrite Ea. destruct Hlive as [E|E]; [rewrite E, <- Hf; exact Ha | rewrite E; exact I]. }
+        split; [left; reflexivity|]. split; assumption.
+      + (* the round has overtaken the submission *)
+        exists opsA, (ups ++ ops1). fold g.
+        split.
+        { rewrite app_assoc. apply ops_ok_app; [exact Hok|].
+          rewrite fold_left_app. fold g. rewrite Hf. exact Ho1. }
+        split; [apply Forall_app; split; assumption|].
+        split; [rewrite fold_left_app, Hf; exact Hf1|].
+        split; [rewrite Ea; exact Ha|].
+        split; [right; rewrite Ea; exact H3|]. split; assumption.
+    - (* A1..A3 *)
+      destruct (istep_a123 s o H123) as (En & Ev & Eu & Hafr & Ha3).
+      exists opsA, ups. fold g. rewrite En, Ev, Eu.
+      split; [exact Hok|]. split; [exact Hup|]. split; [exact Hf|].
+      destruct Hfr as [E|H3].
+      + subst ups. cbn [fold_left] in Hf. split; [rewrite Hf; apply Hafr; rewrite <- Hf; exact Ha|].
+        split; [left; reflexivity|]. split; assumption.
+      + rewrite (Ha3 H3). split; [exact Ha|]. split; [right; exact H3|]. split; assumption.
+    - (* A4 *)
+      subst o. destruct (istep_a4 s) as [[_ Es]|(t & l & u0 & x & Ea & Es)].
+      { rewrite Es. exists opsA, ups. fold g. repeat (split; [assumption|]). assumption. }
+      rewrite Es. rewrite Ea in Ha. destruct Ha as (Hl & Hu0 & Hx). subst l u0 x.
+      assert (Hpool : n_pool (i_n s) = n_pool g).
+      { rewrite <- Hf. apply fold_updates_pool. exact Hup. }
+      rewrite (pool_add_view_repool _ _ _ (i_n s) g t Hpool), pool_add_view_fresh.
+      destruct (ops_ok_app_inv _ _ _ Hok) as [HokA HokU]. fold g in HokU.
+      destruct (pool_add g t) as [g'|e] eqn:Ep.
+      + (* the submission is put before the rounds that have overtaken it *)
+        pose proof (pool_add_node _ _ _ _ _ _ _ Ep) as Eg'.
+        exists (opsA ++ [OpAdd t] ++ ups), []. rewrite app_nil_r. cbn [i_n i_v i_a i_u fold_left n_c].
+        assert (Hstep : step g (OpAdd t) = mkNode (n_c g) (sl_app (n_pool g) t)).
+        { cbn [Reach.step]. rewrite Ep. exact Eg'. }
+        assert (Hfold : fold_left step (opsA ++ [OpAdd t] ++ ups) n0
+                        = mkNode (n_c (i_n s)) (sl_app (n_pool (i_n s)) t)).
+        { rewrite !fold_left_app. fold g. cbn [fold_left]. rewrite Hstep.
+          rewrite (fold_updates_repool ups Hup (n_c g) (sl_app (n_pool g) t) (n_pool g)).
+          rewrite node_eta, Hf, Hpool. reflexivity. }
+        split.
+        { apply ops_ok_app; [exact HokA|]. fold g. split; [exact I|].
+          exact (ops_ok_updates ups Hup _ _ HokU). }
+        split; [constructor|]. split; [exact Hfold|].
+        split; [exact I|]. split; [left; reflexivity|]. split; assumption.
+      + exists (opsA ++ ups), []. rewrite app_nil_r, fold_left_app. fold g.
+        cbn [i_n i_v i_a i_u fold_left].
+        split; [exact Hok|]. split; [constructor|]. split; [exact Hf|].
+        split; [exact I|]. split; [left; reflexivity|]. split; assumption.
+  Qed.
+
+  Lemma irun_ginv (n0 : node) (l : list iop) : forall s,
+    ginv n0 s -> sched_ok' s l -> ginv n0 (irun s l).
+  Proof.
+    induction l as [|o r IH]; intros s Hg Hs; [exact Hg|].
+    destruct Hs as (Hq & Hi & Hr). cbn [Interleave.irun].
+    apply IH; [exact (ginv_step n0 s o Hg Hq Hi) | exact Hr].
+  Qed.
+
+  (* ---- the theorems ---- *)
 
   (* the interleaved run is a sequential history of atomic operations, each satisfying its side
      condition at its point *)
+  Theorem interleave_sequential_refined (n0 : node) (l : list iop) :
+    sched_ok' (istate_of n0) l ->
+    exists ops : list op,
+      ops_ok n0 ops /\ fold_left step ops n0 = i_n (irun (istate_of n0) l).
+  Proof.
+    intros Hs. apply ginv_history. exact (irun_ginv n0 l _ (ginv_init n0) Hs).
+  Qed.
+
+  Theorem interleave_reach_refined (n0 : node) (l : list iop) :
+    reach n0 -> sched_ok' (istate_of n0) l -> reach (i_n (irun (istate_of n0) l)).
+  Proof.
+    intros Hr Hs. destruct (interleave_sequential_refined n0 l Hs) as (ops & Ho & Hf).
+    rewrite <- Hf. exact (reach_fold ops n0 Hr Ho).
+  Qed.
+
   Theorem interleave_sequential (n0 : node) (l : list iop) :
     sched_ok (istate_of n0) l ->
     exists ops : list op,
       ops_ok n0 ops /\ fold_left step ops n0 = i_n (irun (istate_of n0) l).
-  Proof. intros Hs. exact (irun_sequential l (istate_of n0) (inv_init n0) Hs). Qed.
+  Proof. intros Hs. exact (interleave_sequential_refined n0 l (sched_ok_refines l _ Hs)). Qed.
 
   Theorem interleave_reach (n0 : node) (l : list iop) :
     reach n0 -> sched_ok (istate_of n0) l -> reach (i_n (irun (istate_of n0) l)).
+  Proof. intros Hr Hs. exact (interleave_reach_refined n0 l Hr (sched_ok_refines l _ Hs)). Qed.
+
+  (* every moment of the run: the node after each prefix of the schedule is reachable, so its
+     chain is hash-linked *)
+  Theorem interleave_always_reach_refined (n0 : node) (l1 l2 : list iop) :
+    reach n0 -> sched_ok' (istate_of n0) (l1 ++ l2) ->
+    reach (i_n (irun (istate_of n0) l1)) /\
+    chain_linked H (chain (n_c (i_n (irun (istate_of n0) l1)))).
   Proof.
-    intros Hr Hs. destruct (interleave_sequential n0 l Hs) as (ops & Ho & Hf).
-    rewrite <- Hf. exact (reach_fold ops n0 Hr Ho).
+    intros Hr Hs. destruct (sched_ok'_app l1 l2 _ Hs) as [H1 _].
+    pose proof (interleave_reach_refined n0 l1 Hr H1) as Hr1.
+    split; [exact Hr1 | exact (reach_linked _ _ _ _ _ _ _ _ Hr1)].
+  Qed.
+
+  Theorem interleave_always_reach (n0 : node) (l1 l2 : list iop) :
+    reach n0 -> sched_ok (istate_of n0) (l1 ++ l2) ->
+    reach (i_n (irun (istate_of n0) l1)) /\
+    chain_linked H (chain (n_c (i_n (irun (istate_of n0) l1)))).
+  Proof.
+    intros Hr Hs. exact (interleave_always_reach_refined n0 l1 l2 Hr (sched_ok_refines _ _ Hs)).
   Qed.
 
   (* hence what holds of every reachable node holds of the node a schedule ends in; for
@@ -619,6 +922,17 @@ Module InterleaveExample.
     - vm_compute in Hv. discriminate Hv.
   Qed.
 
+  (* it is outside the refined condition too: the tip installed is dated 20, before the tick 30 *)
+  Lemma stale_sched_not_quiet' : ~ sched_ok' vf ao so Ho go St "V"%string (istate_of n0) stale_sched.
+  Proof.
+    unfold stale_sched. cbn [sched_ok'].
+    intros (_ & _ & _ & _ & _ & _ & _ & _ & _ & _ & Hq & _).
+    destruct Hq as [[Hv|(ts & Et & _ & Hle)] _].
+    - vm_compute. intros E. discriminate E.
+    - vm_compute in Hv. discriminate Hv.
+    - vm_compute in Et. inversion Et; subst ts. vm_compute in Hle. apply Hle. reflexivity.
+  Qed.
+
   Lemma stale_final_chain :
     map (fun b => (b_ts b, map t_id (txs b))) (chain (n_c (i_n (irunV (istate_of n0) stale_sched))))
     = [(10%Z, ["WA"%string]); (20%Z, ["WK"%string]); (30%Z, ["t1"%string; "VU"%string])]
@@ -640,6 +954,7 @@ Module InterleaveExample.
       chain_inputs_known (chain (n_c n0)) = true /\
       sched_ops_ok value_fn addr_of sig_ok H gen_id S validator (istate_of n0) l /\
       ~ sched_ok value_fn addr_of sig_ok H gen_id S validator (istate_of n0) l /\
+      ~ sched_ok' value_fn addr_of sig_ok H gen_id S validator (istate_of n0) l /\
       chain_inputs_known
         (chain (n_c (i_n (Interleave.irun value_fn addr_of sig_ok H gen_id S validator (istate_of n0) l))))
       = false /\
@@ -655,6 +970,7 @@ Module InterleaveExample.
     split; [vm_compute; reflexivity|].
     split; [exact stale_sched_ops_ok|].
     split; [exact stale_sched_not_quiet|].
+    split; [exact stale_sched_not_quiet'|].
     split; [vm_compute; reflexivity|].
     split; vm_compute; reflexivity.
   Qed.
@@ -682,4 +998,83 @@ Module InterleaveExample.
     map (fun b => (b_ts b, map t_id (txs b))) (chain (n_c (i_n (irunV (istate_of h1) overlap_sched))))
     = [(20%Z, ["VK"%string]); (30%Z, ["t1"%string; "VU"%string])].
   Proof. vm_compute. split; reflexivity. Qed.
+
+  (* ---- schedules the refined condition lets through ---- *)
+  (* the neighbor one block later: its tip is dated 30 *)
+  Definition w3 : node := stepW w2 (OpValidate 30 []).
+  Definition nbW3 : neighbor := mkNb "w:1"%string (RFail EFetch) (RBlocks (chain (n_c w3))).
+
+  (* the tick 30 in flight when a sync round installs a chain whose tip is dated 30: V4 is refused *)
+  Definition refused_sched : list iop :=
+    [IV1 30; IV2; IV3; IU1; IU2; IU3 40 [nbW3] EmptyString; IV4 [0]].
+
+  Ltac eval_areg :=
+    lazymatch goal with
+    | |- context [i_a ?s] =>
+      let a := eval vm_compute in (i_a s) in
+      replace (i_a s) with a by (vm_compute; reflexivity)
+    end.
+
+  Lemma refused_sched_ok' : sched_ok' vf ao so Ho go St "V"%string (istate_of n0) refused_sched.
+  Proof.
+    unfold refused_sched. cbn [sched_ok'].
+    do 5 (split; [exact I|]; split; [exact I|]).
+    split.
+    { intros _. split.
+      - right. exists 30%Z. split; [vm_compute; reflexivity|].
+        split; vm_compute; intros E; discriminate E.
+      - left. vm_compute. reflexivity. }
+    split.
+    { intros nb [E|[]] Et. subst nb. vm_compute in Et. discriminate Et. }
+    split; [exact I|]. split; [|exact I].
+    unfold iop_ok. eval_reg.
+    right. exists 0%Z. split; [lia|]. vm_compute. reflexivity.
+  Qed.
+
+  Lemma refused_sched_not_quiet : ~ sched_ok vf ao so Ho go St "V"%string (istate_of n0) refused_sched.
+  Proof.
+    unfold refused_sched. cbn [sched_ok].
+    intros (_ & _ & _ & _ & _ & _ & _ & _ & _ & _ & Hq & _).
+    destruct Hq as [Hv _].
+    - vm_compute. intros E. discriminate E.
+    - vm_compute in Hv. discriminate Hv.
+  Qed.
+
+  (* the run is the sync round alone: the tick has produced nothing, the pool is as it was *)
+  Lemma refused_result :
+    i_n (irunV (istate_of n0) refused_sched) = fold_left stepV [OpUpdate 40 [nbW3] EmptyString] n0 /\
+    map b_ts (chain (n_c (i_n (irunV (istate_of n0) refused_sched)))) = [10%Z; 20%Z; 30%Z] /\
+    pool_ids (i_n (irunV (istate_of n0) refused_sched)) = ["t1"%string].
+  Proof. vm_compute. repeat split. Qed.
+
+  (* a submission that has made its three reads when a sync round replaces the chain (and a
+     tick in flight that the round dooms): A4 then appends to the pool what it has checked
+     against the old chain, as if it had come before the round *)
+  Definition overtaken_sched : list iop :=
+    [IV1 30; IA1 t1; IA2; IA3; IU1; IU2; IU3 40 [nbW3] EmptyString; IA4; IV2; IV3; IV4 [0]].
+
+  Lemma overtaken_sched_ok' : sched_ok' vf ao so Ho go St "V"%string (istate_of h1) overtaken_sched.
+  Proof.
+    unfold overtaken_sched. cbn [sched_ok'].
+    do 6 (split; [exact I|]; split; [exact I|]).
+    split.
+    { intros _. split.
+      - right. exists 30%Z. split; [vm_compute; reflexivity|].
+        split; vm_compute; intros E; discriminate E.
+      - right. unfold is_AR3. eval_areg. do 4 eexists. reflexivity. }
+    split.
+    { intros nb [E|[]] Et. subst nb. vm_compute in Et. discriminate Et. }
+    do 3 (split; [exact I|]; split; [exact I|]).
+    split; [exact I|]. split; [|exact I].
+    unfold iop_ok. eval_reg.
+    right. exists 0%Z. split; [lia|]. vm_compute. reflexivity.
+  Qed.
+
+  (* the history: the submission, then the round; the other order refuses the submission *)
+  Lemma overtaken_result :
+    i_n (irunV (istate_of h1) overtaken_sched)
+    = fold_left stepV [OpAdd t1; OpUpdate 40 [nbW3] EmptyString] h1 /\
+    pool_ids (i_n (irunV (istate_of h1) overtaken_sched)) = ["t1"%string] /\
+    pool_ids (fold_left stepV [OpUpdate 40 [nbW3] EmptyString; OpAdd t1] h1) = [].
+  Proof. vm_compute. repeat split. Qed.
 End InterleaveExample.
